@@ -213,12 +213,14 @@ class Episode:
         self.envbox = []
         self.recorder = Recorder(self.log, self.envbox)
         space = cfg.get("space", "box")
+        self.space_contracts = ([Cash()] if cfg.get("cash_in_space") else []) + list(self.contracts)
         if space == "box":
-            self.space = BoxPortfolio(self.contracts, low=-1.0, high=2.0)
+            self.space = BoxPortfolio(self.space_contracts, low=cfg.get("low", -1.0), high=cfg.get("high", 2.0),
+                                      as_weights=cfg.get("as_weights", True))
         else:
-            n = len(self.contracts)
+            n = len(self.space_contracts)
             self.allocs = [[0.0] * n, [0.5] * n, [-0.5] * n, [1.0] + [0.0] * (n - 1)]
-            self.space = DiscretePortfolio(self.contracts, self.allocs)
+            self.space = DiscretePortfolio(self.space_contracts, self.allocs)
         kw = {}
         if cfg.get("reward"):
             kw["reward"] = cfg["reward"]
@@ -232,7 +234,7 @@ class Episode:
     # ------------------------------------------------------------------ helpers
     def action(self, k):
         """k-th concrete, distinct in-space action."""
-        n = len(self.contracts)
+        n = len(self.space_contracts)
         if isinstance(self.space, BoxPortfolio):
             return np.array([0.1 * (k + 1) + 0.01 * j for j in range(n)])
         return (k % 3) + 1
